@@ -415,13 +415,39 @@ pub fn run_c05(tier: Tier) -> ! {
     t.per_world.extend(t4.per_world);
     t.caps.extend(t4.caps);
     t.samples.extend(t4.samples.into_iter().take(2));
+    // (v) the station inside a reactive ring (the environment plays conforming ring members and answers every
+    // GAP poll in all ways): long conforming histories — many token visits, complete GAP sweeps — that the
+    // adversarial alphabet worlds do not reach within their depth; includes ring members ABOVE the HSA
+    {
+        use crate::w2r::{RCfg, RMon};
+        let mut rcfgs = vec![];
+        let cases: Vec<(u8, u8, Vec<u8>)> = match tier {
+            Tier::Quick => vec![(2, 4, vec![20]), (0, 3, vec![]), (2, 3, vec![0, 1]), (1, 4, vec![3, 100])],
+            Tier::Thorough => vec![(2, 4, vec![20]), (0, 3, vec![]), (2, 3, vec![0, 1]), (1, 4, vec![3, 100]), (0, 4, vec![125]), (3, 4, vec![0, 50]), (5, 6, vec![7]), (125, 126, vec![0]), (0, 126, vec![125])],
+        };
+        for (ts, hsa, members0) in cases {
+            for g in [1u8, 2] {
+                let cfg = RCfg { ts, hsa, gap_factor: g, slot_bits: 100, ttr: None, period_div: 8, members0: members0.clone(), scripts: vec![], multi: false, mon: RMon::C05, max_visits: if hsa > 100 { 140 } else { tier.pick(14, 24) }, join_budget: tier.pick(1, 2) };
+                rcfgs.push((format!("reactive TS{ts} HSA{hsa} G{g} members{members0:?}"), cfg, 60, tier.pick(120.0, 3000.0), tier.pick(60_000, 600_000)));
+            }
+        }
+        let mut tr = w4props::Totals::default();
+        crate::props::w2rprops::explore_r(rcfgs, &mut tr);
+        t.states += tr.states;
+        t.transitions += tr.transitions;
+        t.validated += tr.validated;
+        t.worlds += tr.worlds;
+        t.per_world.extend(tr.per_world);
+        t.caps.extend(tr.caps);
+        ctx().witness_n("c05_reactive_ring_states", tr.states);
+    }
     // (iv) DP master under a real FDL station (re-execution, deviation-bounded)
     let (runs, reqs) = c05_dp_under_fdl(tier);
     t.states += runs;
     t.transitions += reqs;
     t.validated += runs;
     t.per_world.push(json!({"world": "DpMaster under a real FdlActiveStation: all answer sequences with <=2 deviations from the conforming slave", "executions": runs, "requests_answered": reqs}));
-    finish_w2(t, "C05", tier, vec!["states_where_station_used_the_token", "c05_dp_under_fdl_reached_data_exchange"])
+    finish_w2(t, "C05", tier, vec!["states_where_station_used_the_token", "c05_dp_under_fdl_reached_data_exchange", "c05_reactive_ring_states"])
 }
 
 pub fn replay(v: &Value) {
@@ -431,6 +457,11 @@ pub fn replay(v: &Value) {
         let n = v["replay"]["peripherals"].as_u64().unwrap() as usize;
         println!("answers: {:?}", answers.iter().map(|a| format!("{:?}", DP_ANSWERS[*a as usize])).collect::<Vec<_>>());
         println!("result: {:?}", dp_under_fdl(n, &answers, false, answers.len() + 6));
+        return;
+    }
+    if v["replay"]["world"] == "w2r" {
+        enable_formatting_logger();
+        crate::w2r::replay(v);
         return;
     }
     if v["replay"]["world"] == "w4" {
